@@ -1,6 +1,5 @@
-from math import factorial
-
 import numpy as np
+from scipy.special import eval_jacobi
 
 import lentil
 
@@ -100,12 +99,11 @@ def R(m, n, rho):
     if (n - m) & 1:  # odd
         return 0
     else:
-        R = np.zeros(rho.shape)
-        for k in range(int(n-m)//2 + 1):
-            Rk = ((-1) ** k * factorial(n-k) /
-                  (factorial(k) * factorial((n+m)//2-k) * factorial((n-m)//2-k)))
-            R += Rk * rho ** (n-2*k)
-        return R
+        # R_n^m(rho) = (-1)^k rho^m P_k^(m,0)(1 - 2 rho^2) with k = (n-m)/2. The
+        # explicit power series has alternating coefficients of order 1e17 at
+        # n = 50 and cancels catastrophically near rho = 1 from n ~ 30 on.
+        k = (n-m)//2
+        return (-1) ** k * rho ** m * eval_jacobi(k, m, 0, 1 - 2*rho**2)
 
 
 def zernike_compose(mask, coeffs, normalize=True, rho=None, theta=None):
